@@ -1100,7 +1100,7 @@ fn main() {
         // every kind once as outer and once as inner
         (0..KINDS.len()).map(|i| (KINDS[i], KINDS[(i * 5 + 1) % KINDS.len()])).collect()
     };
-    let reps = if o.thorough() { 6 } else { 1 };
+    let reps = if o.thorough() { 12 } else { 2 };
     for rep in 0..reps {
         for fam in 0..NFAM {
             for k in KINDS.iter() {
@@ -1115,7 +1115,7 @@ fn main() {
         }
     }
     // (2) random programs: longer prologues and child bodies, raises, in-function rendering
-    let n = if o.thorough() { 40_000 } else { 1_500 };
+    let n = if o.thorough() { 200_000 } else { 4_000 };
     for _ in 0..n {
         let np = rng.below(7);
         let nc = 1 + rng.below(5);
